@@ -5,7 +5,7 @@ PROP = "C06"
 
 
 def run(tier):
-    QUICK_CFGS = lambda: vfsrun.cfgs([5], [0, 1, 2, 3], [0, 2, 4, 7]) + vfsrun.cfgs([1], [2, 3], [0, 6]) + vfsrun.cfgs([5], [2, 3], [0, 6], shapes=(1, 2)) + vfsrun.cfgs([0], [2], [3])
+    QUICK_CFGS = lambda: vfsrun.cfgs([5], [0, 1, 2, 3], [0, 2, 4, 7]) + vfsrun.cfgs([1], [2, 3], [0, 6]) + vfsrun.cfgs([5], [2, 3], [0, 6], shapes=(1, 2)) + vfsrun.cfgs([0], [2], [3]) + vfsrun.cfgs([5], [3], [0, 4], shapes=(5,))
     extra = []
     if tier == "quick":
         cfgs = QUICK_CFGS()
@@ -17,6 +17,7 @@ def run(tier):
         extra = [(QUICK_CFGS(), 5)]      # depth 5 on the quick configuration set, depth 4 on the full set: sized to finish (see vfsrun.DEADLINE)
         longs, writes = vfsrun.cfgs([1], [0, 2, 3, 5, 12], [0, 2, 4], ticks=(0, 1)) + vfsrun.cfgs([1], [3], [0, 4], shapes=(1, 2)), (12, 102)
     deep = (vfsrun.cfgs([5], [2, 3], [0, 2, 3, 4, 7]) + vfsrun.cfgs([1], [3], [0, 2]), 6) if tier == 'quick' else (cfgs, 7)
+    reconf = (vfsrun.cfgs([5], [2, 3], [0, 2, 4, 6]) + vfsrun.cfgs([1], [3], [0, 4]), 5) if tier == 'quick' else (vfsrun.cfgs([1, 5], [2, 3, 4], [0, 2, 4, 6]), 7)
     return vfsrun.hist_check(
         PROP, tier, cfgs, depth, extra_groups=extra,
         rule="every operation history up to the depth bound for file-count limits N in {<=0, 1, 2, 3, ..} with all file timestamps tied (virtual clock does not advance "
@@ -24,7 +25,7 @@ def run(tier):
              "files in the directory (dated 2000-01-01, i.e. 'oldest'); after every operation: active+rotated <= N, the surviving rotated files are the most recent ones "
              "(contiguous stretch), nothing disappears for N<=0, nothing rotates for N=1, foreign files byte-identical; every unlink is checked at the system call "
              "(scheme name, more than N-1 rotated files present, no older rotated file left)",
-        deep=deep, assumptions=vfsrun.COMMON_ASSUMPTIONS,
+        deep=deep, reconf=reconf, assumptions=vfsrun.COMMON_ASSUMPTIONS,
         long_cfgs=longs, long_writes=writes)
 
 
